@@ -304,21 +304,22 @@ Definition fallback_of (ps : list provider) : option provider :=
   if String.eqb OF.fallback_provider "last" then last (map Some ps) None else hd_error ps.
 
 (* the regular part of one position: dictionary nodes, then (unless the class of the character is gated) every provider in
-   configuration order.  State = (created words, node buffer). *)
-Definition normal_pass (c : ctx) (ps : list provider) (off : nat) (dict : list node) : res (N * list node) :=
+   configuration order.  State = (created words, node buffer).  [gate] = classes at which the provider loop is skipped. *)
+Definition normal_pass_g (gate : N) (c : ctx) (ps : list provider) (off : nat) (dict : list node) : res (N * list node) :=
   match cw_add_all 0 (map node_len dict), nth_error (c_cats c) off with
   | Some cw0, Some cat =>
-    if inter cat OF.oov_gate_mask then ROk (cw0, dict) else provide_all c off (cw0, dict) ps
+    if inter cat gate then ROk (cw0, dict) else provide_all c off (cw0, dict) ps
   | _, _ => RPanic
   end.
 
-(* one reachable position: [dict] = the dictionary nodes already inserted there (after the can_bow filter).
-   Result: the node buffer (dictionary nodes followed by the OOV nodes in creation order). *)
-Definition position_step (c : ctx) (ps : list provider) (off : nat) (dict : list node) : res (list node) :=
-  match normal_pass c ps off dict with
+(* one reachable position: [dict] = the dictionary nodes already inserted there (after the can_bow filter), [fb] = the
+   fallback provider.  Result: the node buffer (dictionary nodes followed by the OOV nodes in creation order). *)
+Definition position_step_g (gate : N) (fb : option provider) (c : ctx) (ps : list provider) (off : nat) (dict : list node)
+  : res (list node) :=
+  match normal_pass_g gate c ps off dict with
   | ROk st1 =>
     let r2 := if fst st1 =? 0
-              then match fallback_of ps with Some p => provide_oovs c off st1 p | None => RPanic end
+              then match fb with Some p => provide_oovs c off st1 p | None => RPanic end
               else ROk st1 in
     match r2 with
     | ROk st2 => if fst st2 =? 0 then RErr else ROk (snd st2)
@@ -329,6 +330,10 @@ Definition position_step (c : ctx) (ps : list provider) (off : nat) (dict : list
   | RPanic => RPanic
   end.
 
+(* what the source does now: gate and fallback provider as re-read on every run *)
+Definition normal_pass := normal_pass_g OF.oov_gate_mask.
+Definition position_step (c : ctx) (ps : list provider) := position_step_g OF.oov_gate_mask (fallback_of ps) c ps.
+
 (* the dictionary side is an oracle: for every position the end offsets (in characters) of the lexicon matches, in lookup
    order; build_lattice drops those that end where no word may start *)
 Definition dict_node (off e : nat) : node := mkNode off e 0 0 0%Z 0.
@@ -338,15 +343,15 @@ Definition dict_filter (c : ctx) (off : nat) (ends : list nat) : list node :=
 
 (* whole loop: positions in increasing order; a position is processed iff it is 0 or some node ends there.
    Output per position: None (skipped) or Some node buffer. *)
-Fixpoint lattice_loop (c : ctx) (ps : list provider) (offs : list nat) (dict : list (list nat)) (ends : list nat)
-  : res (list (option (list node))) :=
+Fixpoint lattice_loop_g (gate : N) (fb : option provider) (c : ctx) (ps : list provider) (offs : list nat)
+         (dict : list (list nat)) (ends : list nat) : res (list (option (list node))) :=
   match offs with
   | [] => ROk []
   | off :: t =>
     let d := hd [] dict in
     if Nat.eqb off 0 || existsb (Nat.eqb off) ends then
-      match position_step c ps off (dict_filter c off d) with
-      | ROk buf => match lattice_loop c ps t (tl dict) (map n_end buf ++ ends) with
+      match position_step_g gate fb c ps off (dict_filter c off d) with
+      | ROk buf => match lattice_loop_g gate fb c ps t (tl dict) (map n_end buf ++ ends) with
                    | ROk r => ROk (Some buf :: r)
                    | RErr => RErr
                    | RPanic => RPanic
@@ -354,14 +359,23 @@ Fixpoint lattice_loop (c : ctx) (ps : list provider) (offs : list nat) (dict : l
       | RErr => RErr
       | RPanic => RPanic
       end
-    else match lattice_loop c ps t (tl dict) ends with
+    else match lattice_loop_g gate fb c ps t (tl dict) ends with
          | ROk r => ROk (None :: r)
          | RErr => RErr
          | RPanic => RPanic
          end
   end.
+Definition build_lattice_g (gate : N) (fb : option provider) (c : ctx) (ps : list provider) (dict : list (list nat)) :=
+  lattice_loop_g gate fb c ps (seq 0 (List.length (c_cats c))) dict [].
 Definition build_lattice (c : ctx) (ps : list provider) (dict : list (list nat)) : res (list (option (list node))) :=
-  lattice_loop c ps (seq 0 (List.length (c_cats c))) dict [].
+  build_lattice_g OF.oov_gate_mask (fallback_of ps) c ps dict.
+
+(* the same loop with the constants of the property statement instead of the re-read ones: providers are skipped at
+   NOOOVBOW / NOOOVBOW2 characters, the fallback provider is the last configured one *)
+Definition spec_gate : N := N.lor Generated.CategoryFacts.NOOOVBOW Generated.CategoryFacts.NOOOVBOW2.
+Definition spec_fallback (ps : list provider) : option provider := last (map Some ps) None.
+Definition build_lattice_spec (c : ctx) (ps : list provider) (dict : list (list nat)) :=
+  build_lattice_g spec_gate (spec_fallback ps) c ps dict.
 
 (* ------------------------------------------------------------------ executable statement of the prescription *)
 (* candidate ends prescribed by one class definition at [off] when the class run there has [char_len] characters *)
@@ -404,8 +418,32 @@ Definition res_eqb {A} (e : A -> A -> bool) (a b : res A) : bool :=
 
 (* buffer level: observed can_bow / cat_continuous_len per character against the model, and the observed continuity
    against the specification *)
+(* the chain of the property statement (constants by class name, independent of the re-read chain) *)
+Definition cat_bit (name : string) : N :=
+  match find (fun p => String.eqb (fst p) name) Generated.CategoryFacts.category_bits with Some p => snd p | None => 0 end.
+Definition spec_chain : list bow_rule :=
+  [RPrevForbids; RForbidThisAndNext (cat_bit "NOOOVBOW2"); RForbidThis (cat_bit "NOOOVBOW");
+   RNeedsClassChange (N.lor (cat_bit "ALPHA") (N.lor (cat_bit "GREEK") (cat_bit "CYRILLIC")))].
+Definition can_bow_spec (cs : list N) : list bool := bow_loop spec_chain true 0 cs.
+
 Definition check_buffer (cs : list N) (bows : list bool) (conts : list nat) : bool :=
-  bool_list_eqb (can_bow cs) bows && nat_list_eqb (continuity cs) conts && nat_list_eqb (continuity_spec cs) conts.
+  bool_list_eqb (can_bow cs) bows && nat_list_eqb (continuity cs) conts
+  && nat_list_eqb (continuity_spec cs) conts && bool_list_eqb (can_bow_spec cs) bows.
+
+(* what the Regex provider has to answer when the created-words set mirrors the result vector: the match (oracle) as one
+   candidate unless a word with the same span exists; nothing inside a class run in strict mode *)
+Definition regex_expected (x : regexp) (cs : list N) (off : nat) (pre : list nat) : option (res (list node)) :=
+  let sp := continuity_spec cs in
+  if x_strict x && Nat.ltb 0 off && Nat.eqb (S (nth off sp 0%nat)) (nth (pred off) sp 0%nat) then Some (ROk [])
+  else match nth_error (x_matches x) off with
+       | None => None
+       | Some None => Some (ROk [])
+       | Some (Some (at0, mlen)) =>
+         if negb at0 then Some (if x_debug x then RErr else ROk [])
+         else if Nat.eqb mlen 0 then None      (* empty match: outside C13 (see C03) *)
+         else if existsb (Nat.eqb (off + mlen)) pre then Some (ROk [])
+         else Some (ROk [oov_node off (off + mlen) (x_def x)])
+       end.
 
 (* one direct call of a provider through the OovProviderPlugin trait.
    [pre] = ends of the nodes put into the result vector before the call (they all start at [off]). *)
@@ -423,6 +461,13 @@ Definition check_call (cs : list N) (p : provider) (off : nat) (other : N) (pre 
            | _ => false
            end
          else match ns with [] => true | _ => false end
+     | PRegex x, _ =>
+         match cw_add_all 0 (map (fun e => (e - off)%nat) pre) with
+         | Some cw => if cw =? other
+                      then match regex_expected x cs off pre with Some e => res_eqb node_list_eqb e out | None => true end
+                      else true
+         | None => true
+         end
      | _, _ => true
      end.
 
@@ -431,18 +476,28 @@ Definition by_end (len : nat) (ns : list node) : list node :=
   flat_map (fun e => filter (fun n => Nat.eqb (n_end n) e) ns) (seq 0 (S len)).
 
 (* whole lattice: observed = per position the nodes that begin there (dictionary nodes as dict_node), grouped by end *)
-Definition check_lattice (cs : list N) (ps : list provider) (dict : list (list nat))
-           (observed : res (list (list node))) : bool :=
-  let c := mk_ctx cs in
-  match build_lattice c ps dict, observed with
+Definition lattice_res_eqb (len : nat) (m : res (list (option (list node)))) (o : res (list (list node))) : bool :=
+  match m, o with
   | ROk m, ROk o =>
-      list_eqb node_list_eqb (map (fun x => match x with Some b => by_end (List.length cs) b | None => [] end) m) o
-      (* every processed position has a candidate *)
-      && forallb (fun x => match x with Some [] => false | _ => true end) m
+      list_eqb node_list_eqb (map (fun x => match x with Some b => by_end len b | None => [] end) m) o
   | RErr, RErr => true
   | RPanic, RPanic => true
   | _, _ => false
   end.
+
+Definition check_lattice (cs : list N) (ps : list provider) (dict : list (list nat))
+           (observed : res (list (list node))) : bool :=
+  let c := mk_ctx cs in
+  (* the model (constants as in the source now) agrees with the implementation *)
+  lattice_res_eqb (List.length cs) (build_lattice c ps dict) observed
+  (* the implementation's lattice is the one the property prescribes (class gate and fallback provider as stated) *)
+  && lattice_res_eqb (List.length cs) (build_lattice_spec c ps dict) observed
+  (* every processed position has a candidate *)
+  && match observed, build_lattice_spec c ps dict with
+     | ROk o, ROk m => list_eqb Bool.eqb (map (fun x => match x with Some _ => true | None => false end) m)
+                                         (map (fun l => match l with [] => false | _ => true end) o)
+     | _, _ => true
+     end.
 
 (* one correspondence case: a text (observed classes / can_bow / continuity), the configured providers, direct provider
    calls (provider index, offset, CreatedWords bits, ends of pre-filled result nodes, observed output), the lexicon matches per
